@@ -396,6 +396,17 @@ func VerifC17VIVC(n int) {
 // either text, so only the bits under the mask are compared.
 func VerifC17ClasslessStaticRoute(n int) {
 	p, raw := verifC17Packet(OptionClasslessStaticRoute, n)
+	// what an earlier read returned is the caller's: overwriting every byte of it (addresses and
+	// masks in place) changes nothing a later read returns
+	for _, r := range p.ClasslessStaticRoute() {
+		if r != nil {
+			if r.Dest != nil {
+				verifHavoc("scribble-dest", r.Dest.IP)
+				verifHavoc("scribble-mask", r.Dest.Mask)
+			}
+			verifHavoc("scribble-router", r.Router)
+		}
+	}
 	got := p.ClasslessStaticRoute()
 	want, ok := refRoutes(raw)
 	verifObserveInt("count", len(got))
